@@ -22,6 +22,7 @@ typedef struct fc_ctx {
 	octet* dest; size_t dest_len;
 	int variant;         /* descriptor-specific sub-case chosen by gen */
 	int no_rng;          /* FC_RNG(c) yields a null generator */
+	const char* damage;  /* set by a call that found the library in a damaged state after a failed call (C09 "errors, not damage") */
 } fc_ctx;
 
 octet* fc_pub(fc_ctx* c, size_t n);    /* public input, exact size, from c->rng */
